@@ -85,9 +85,12 @@ def run_history(cls, exprs, cons, hist):
             elif op[0] == "eval":
                 out.append(tuple(sorted(s.eval(exprs[op[1]], op[2]))))
             elif op[0] == "min":
-                out.append(s.min(exprs[op[1]], signed=op[2]))
+                # the optimum as an n-bit pattern (C11's criterion): a signed optimum comes back as a negative int from the
+                # Z3 bisection and as the unsigned pattern from the model cache - which path answers depends on the models Z3
+                # happened to return, not on the history
+                out.append(s.min(exprs[op[1]], signed=op[2]) % (1 << exprs[op[1]].length))
             elif op[0] == "max":
-                out.append(s.max(exprs[op[1]], signed=op[2]))
+                out.append(s.max(exprs[op[1]], signed=op[2]) % (1 << exprs[op[1]].length))
             elif op[0] == "solution":
                 out.append(s.solution(exprs[op[1]], op[2]))
             elif op[0] == "simplify":
